@@ -21,7 +21,7 @@ SHARDS = {'quick': 8, 'thorough': 16}
 
 SCENARIOS = ['status', 'status-login', 'login-compressed', 'login-encrypted',
              'play-plain', 'plain-status', 'status-default-outside',
-             'plain-status-ping']
+             'plain-status-ping', 'play-big-frames']
 
 
 def play_traffic(io, codec, rng_bytes):
@@ -36,6 +36,18 @@ def play_traffic(io, codec, rng_bytes):
     io.send_frame(cid, cp, label='ChatMessagePacket')            # compressible
     io.send_frame(0x7D, b'', label='Packet')
     cid, cp = codec.encode('cb_keep_alive', {'id': 7})
+    io.send_frame(cid, cp, label='KeepAlivePacket')
+    did, dp = codec.encode('play_disconnect', {'reason': '{"text":"end"}'})
+    io.send_frame(did, dp, label='DisconnectPacket')
+
+
+def big_traffic(io, codec, rng_bytes):
+    """Frames whose length prefix takes two and three bytes, one of them
+    beyond 64 KiB."""
+    for size in (300, 20000, 70000):
+        io.send_frame(0x7E, (rng_bytes * (size // len(rng_bytes) + 1))[:size],
+                      label='Packet')
+    cid, cp = codec.encode('cb_keep_alive', {'id': 9})
     io.send_frame(cid, cp, label='KeepAlivePacket')
     did, dp = codec.encode('play_disconnect', {'reason': '{"text":"end"}'})
     io.send_frame(did, dp, label='DisconnectPacket')
@@ -77,7 +89,10 @@ def make_handler(scenario, pv, budget, abrupt, state, rng_bytes):
             'uuid': '11111111-2222-3333-4444-555555555555',
             'username': 'vfuser'})
         io.send_frame(sid, sp, label='LoginSuccessPacket')
-        play_traffic(io, codec, rng_bytes)
+        if scenario == 'play-big-frames':
+            big_traffic(io, codec, rng_bytes)
+        else:
+            play_traffic(io, codec, rng_bytes)
 
     def status(io, protocol=pv):
         hs = scripts.read_handshake(io)
@@ -97,7 +112,8 @@ def make_handler(scenario, pv, budget, abrupt, state, rng_bytes):
         cut_here = (scenario in ('status', 'login-compressed',
                                  'login-encrypted', 'play-plain',
                                  'status-default-outside',
-                                 'plain-status-ping') and first) \
+                                 'plain-status-ping', 'play-big-frames')
+                    and first) \
             or (scenario in ('status-login', 'plain-status')
                 and io.index == 1)
         if cut_here:
@@ -289,6 +305,7 @@ def one_case(run, scenario, pv, default_pv, k, abrupt, rng_bytes, hook_log):
         w['sent'] = total
         if io is not None:
             w['boundaries'] = sorted({e[2] for e in io.frame_log})
+            w['frames'] = [(e[1], e[2]) for e in io.frame_log]
         # ---- spin / bounded reads -----------------------------------------
         proxies = getattr(conn, 'vf_file_proxies', [])
         empty = max([p.empty_reads for p in proxies] or [0])
@@ -569,6 +586,16 @@ def run(run):
                 run.extra.setdefault('stream_lengths', {})[
                     '%s@%d' % (scenario, pv)] = total
                 offsets = list(range(-1, total + 1))     # every crash point
+                # ... except inside very long frames: there the first bytes
+                # (length prefix and id), the last ones and a sample
+                skip = set()
+                for a_, b_ in w.get('frames', ()):
+                    if b_ - a_ > 2000:
+                        keep = set(range(a_, a_ + 8)) | \
+                            set(range(b_ - 3, b_ + 1)) | \
+                            {a_ + (b_ - a_) * j // 11 for j in range(1, 11)}
+                        skip |= set(range(a_, b_)) - keep
+                offsets = [k for k in offsets if k not in skip]
                 # (-1 = the peer closes right after accepting)
                 bounds = set(w.get('boundaries', ()))
                 for k in offsets:
@@ -601,7 +628,7 @@ def run(run):
                             run.sample(w)
     finally:
         threading.excepthook = old_hook
-    run.require('scenarios', 8)
+    run.require('scenarios', 9)
     run.require('errors_reported', 20)
     run.require('cuts.inside-frame', 10)
     run.require('cuts.frame-boundary', 20)
